@@ -281,7 +281,11 @@ func coordinator(args []string) int {
 		return 2
 	}
 	loadKnown(*known)
-	os.Setenv("VERIF_INSTR", *isum)
+	if *isum != "" {
+		os.Setenv("VERIF_INSTR", *isum)
+	} else {
+		*isum = os.Getenv("VERIF_INSTR")
+	}
 	seed := envSeed()
 	n := p.Cases(*tier)
 	if os.Getenv("VERIF_DISKMODE") == "real" {
